@@ -213,8 +213,24 @@ class Intervals:
         decls = {}
         assigns = {}
         loopvars = {}
+        const_loops = {}
+        from .loops import loop_range
         for n in walk(func.get('body')):
             k = n.get('k')
+            if k == 'for':
+                rng = loop_range(func, n)
+                if rng:
+                    name, first, end, step = rng
+                    in_init = any(v.get('k') == 'var' and v.get('name') == name for v in walk(n.get('init') or {}))
+                    if step > 0:
+                        lo, hi = first, max(first, end - 1)
+                        if not in_init:
+                            hi = max(hi, end)       # value after the loop
+                    else:
+                        lo, hi = min(first, end + 1), first
+                        if not in_init:
+                            lo = min(lo, end)
+                    const_loops[name] = (lo, hi)
             if k == 'var':
                 decls[n['name']] = n
             elif k == 'assign':
@@ -241,7 +257,9 @@ class Intervals:
             for name, d in decls.items():
                 cur = None
                 unknown = False
-                if name in loopvars and not [a for a in assigns.get(name, []) if a.get('k') == 'assign']:
+                if name in const_loops:
+                    cur = const_loops[name]
+                elif name in loopvars and not [a for a in assigns.get(name, []) if a.get('k') == 'assign']:
                     v, cond, loop = loopvars[name]
                     lo = self.iv(v.get('init'), func, env, penv) if 'init' in v else None
                     hi = self.iv(cond.get('rhs'), func, env, penv)
